@@ -780,8 +780,9 @@ def explore(ctx: Ctx, deep: bool):
     by_sig = {}
     for c, o in mv:
         v = memo_violation(c, o)
-        by_sig.setdefault(json.dumps(v.sig, sort_keys=True), (c, o))
-    for c, o in list(by_sig.values())[:6]:
+        cls = "direct" if v.sig["entry"] in RAW_VIAS else "placing"      # report one per class of entry point
+        by_sig.setdefault(json.dumps([v.sig["cause"], v.sig["repeat"], cls]), (c, o))
+    for c, o in list(by_sig.values())[:3]:
         if len(c["events"]) > 4:
             c, o = shrink_memo(ctx, c, o)
         ctx.violations.append(memo_violation(c, o))
@@ -811,6 +812,7 @@ def explore(ctx: Ctx, deep: bool):
         if c["fmt"] == "fits":
             ctx.dist("fits_hdus", c.get("hdus", "primary"))
         seen.add("rt" + json.dumps([c["fmt"], c["delim"], c["loader"], c["table"], c.get("dtype"), c.get("style"), c.get("header")]))
+    rv.sort(key=lambda co: len(json.dumps(rt_table_of(co[0]))))          # smallest table first
     for c, o in rv:
         ctx.violations.append(rt_violation(c, o))
     tx_cases = corpus_cases("text") + gen_text_cases(ctx)
@@ -861,7 +863,8 @@ def rt_violation(c, o) -> Violation:
              f"{c.get('style', '')}{' with header row' if c.get('header') else ''}: table {len(t)}x{len(t[0])} "
              "is not read back with the same shape and values",
         sig=dict(clause="roundtrip", fmt=c["fmt"], delim=c["delim"], loader=c["loader"],
-                 shape=f"{len(t)}x{len(t[0])}", style=c.get("style"), magnitude=">=2^52" if big else "<2^52"))
+                 shape=("1" if len(t) == 1 else "N") + "x" + ("1" if len(t[0]) == 1 else "M"), style=c.get("style"),
+                 magnitude=">=2^52" if big else "<2^52"))
 
 
 def corpus_cases(kind):
